@@ -151,10 +151,13 @@ reg("C17", level="other", engine="E-TAB+E-FLOW", design_ref="DESIGN.md §5 C17",
                 "len, or (error position - start of the caller's string); E3 — MaxLengthError exactly under "
                 "len > MAX_LENGTH before any parsing, inner kind / Context / Other selection, number() raising "
                 "MaxIntError(v) / ParseIntError at the position saved before the digits, NoValidRanges exactly for an "
-                "empty alternative list, kind surviving append/add_context/from_external_error; E5 — accessors and "
-                "Diagnostic wiring. NOT decided: the line/column arithmetic of location(), rendering by miette.",
-    level_text="Other (partial): exhaustive over the enumerated parser outcomes and length classes; location()'s arithmetic "
-               "and miette's renderer are outside.",
+                "empty alternative list, kind surviving append/add_context/from_external_error; E4 — location() is interpreted "
+                "on a text-geometry abstraction (words over newline / CR / blank / 1-byte / 2-byte characters up to length 4, "
+                "thorough 5, x every char-boundary offset) and must return (newlines before the offset, bytes since the last "
+                "newline) without panicking; E5 — accessors and Diagnostic wiring. NOT decided: rendering by miette; "
+                "location() on texts longer than the bound.",
+    level_text="Other (partial): exhaustive over the enumerated parser outcomes and length classes; location() is bounded by "
+               "the text length; miette's renderer is outside.",
     level_note="Trusted: rustc MIR, interpreter/models, winnow delivering error positions inside the stream it was given, "
                "and raising ErrMode::Incomplete only for Partial streams.",
     exhaustive=True, assumptions=["winnow error positions are suffixes of the input stream",
